@@ -1138,6 +1138,44 @@ func (ev *SpecEnv) havoc(e ast.Expr) {
 				ev.st.Mem[sv.Region] = ev.ex.fresh("hvmem", ev.st.Mem[sv.Region].S)
 			}
 			return
+		case "appended":
+			// appended(*p): the slice variable *p is replaced by a slice that keeps the first old(len(*p)) elements
+			// (elements may have been appended; the backing array may be new)
+			se, isStar := ce.Args[0].(*ast.StarExpr)
+			if !isStar {
+				ev.fail("modifies appended(*p): a dereferenced pointer to a slice is expected")
+			}
+			v, _ := ev.eval(se.X)
+			pv, ok := v.(PtrV)
+			if !ok || pv.K != PCell {
+				ev.fail("modifies appended(*p): not a modelled pointer")
+			}
+			old, ok := ev.ex.load(ev.st, pv, "spec").(SliceV)
+			if !ok {
+				ev.fail("modifies appended(*p): not a slice")
+			}
+			ex := ev.ex
+			nv := ex.havocLike(ev.st, old, "app").(SliceV)
+			if old.Region != nil && nv.Region != nil && len(old.Region.Sub) == 0 {
+				oldMem, newMem := ev.st.Mem[old.Region], ev.st.Mem[nv.Region]
+				// the new slice starts where the old one started (offset kept), is at least as long, and agrees
+				// with the old contents below the old end
+				nv.Off = old.Off
+				ev.st.assume(ex.le(old.Len, nv.Len))
+				end := ex.def("oldend", ex.idxAdd(old.Off, old.Len))
+				// No quantified frame fact is needed: every read of the new array (also through later stores and at
+				// indices that are not linear terms) is unfolded by Select into reads of the old array below the
+				// old end (ArrayPrefix), so the callers' queries stay quantifier-free.
+				if newMem.Op == "sym" {
+					ArrayPrefix[newMem.Name] = arrayPrefix{Old: oldMem, Len: end}
+				}
+				// positions at or beyond the new end lie at or beyond the old end
+				if nb, _, ok := linIdx(ex.idxAdd(nv.Off, nv.Len), 0); ok && nb != "" {
+					BaseLowerBound[nb] = end
+				}
+			}
+			ex.store(ev.st, pv, nv, "spec")
+			return
 		case "mapof":
 			// mapof(m): the contents and length of map m may change
 			v, _ := ev.eval(ce.Args[0])
